@@ -1678,4 +1678,5 @@ func genC15(r *rng, tier string, emit func(string)) {
 	}
 	// handshake message codecs (Model.TLSMessages): harness/c15codec.go
 	c15cGen(r, tier, emit)
+	c06rGenHs(r, tier, emit) // handshake reassembly (Model.ConnRead)
 }
